@@ -78,6 +78,10 @@ Definition src (s r : shape) (idx : list nat) : nat := flat (pad s r) (bidx (pad
 Inductive bstate := BUnset | BNone | BSome (s : shape).
 Inductive akind := KU | KN.          (* UncertainArray | plain ndarray / list *)
 Inductive bkind := BGen | BCmp.
+(* the `order` argument of copy(): the memory layout of the new array.  Layout is not part of the model:
+   copy builds the C-ordered array of +item and only then lets NumPy re-lay it out, so the argument has
+   no influence on shape or logical contents (it had, for 'F', before fix C16-copy-order). *)
+Inductive morder := OrdC | OrdF | OrdA | OrdK.
 
 Definition F_POS : Z := 1.           (* +item  (copy, np.positive) *)
 Definition F_RES1 : Z := 90.         (* result(x) *)
@@ -124,9 +128,15 @@ Inductive op :=
 | OUnB (f : Z) (i : nat)         (* isnan, isinf, isfinite, logical_not: plain bool ndarray result *)
 | OZip (f : Z) (i : nat) (y : operand)   (* sensitivity, u_component, core.atan2 *)
 | OResult (i : nat) (l : lblarg)
-| OCopy (i : nat)
+| OCopy (o : morder) (i : nat)
 | OLabel (i : nat)
-| OPickle (i : nat).
+| OPickle (i : nat)
+(* a VIEW or re-laid-out copy made by NumPy itself (a.T, np.transpose, np.swapaxes, a[::-1], a[:, ::2],
+   np.asanyarray(a, order='F'), np.broadcast_to(a, s, subok=True)): a new object of shape s whose element
+   at flat (C-order, logical) position k is element (nth k m) of object i; its memory layout is not part
+   of the model -- no operation of uncertain_array.py may depend on it.  __array_finalize__ gives the new
+   object the label of its source and _broadcasted_shape = None. *)
+| OView (i : nat) (s : shape) (m : list nat).
 
 Inductive out :=
 | XArr (k : akind) (s : shape) (cells : list E)
@@ -280,7 +290,7 @@ Definition step (h : heap) (o : op) : heap * out :=
       | None => (h, XExn OtherExn)
       end
   | OResult i (LList l) => step_zip h F_RES2 i (Some l)
-  | OCopy i => step_un h KU F_POS i label_of
+  | OCopy _ i => step_un h KU F_POS i label_of
   | OLabel i =>
       match get_ku h i with
       | Some a => (h, match label_of a with Ok l => XLbl l | Err e => XExn e end)
@@ -289,6 +299,15 @@ Definition step (h : heap) (o : op) : heap * out :=
   | OPickle i =>
       match get_ku h i with
       | Some a => (h ++ [fresh KU (a_shape a) (a_cells a) none], XArr KU (a_shape a) (a_cells a))
+      | None => (h, XExn OtherExn)
+      end
+  | OView i s m =>
+      match nth_error h i with
+      | Some a =>
+          if (size s =? length m) && forallb (fun j => j <? length (a_cells a)) m then
+            let cells := map (fun j => nth j (a_cells a) none) m in
+            (h ++ [fresh (a_kind a) s cells (a_label a)], XArr (a_kind a) s cells)
+          else (h, XExn OtherExn)
       | None => (h, XExn OtherExn)
       end
   end.
@@ -318,9 +337,10 @@ Arguments OUn {E} f i.
 Arguments OUnB {E} f i.
 Arguments OZip {E} f i y.
 Arguments OResult {E} i l.
-Arguments OCopy {E} i.
+Arguments OCopy {E} o i.
 Arguments OLabel {E} i.
 Arguments OPickle {E} i.
+Arguments OView {E} i s m.
 Arguments XArr {E} k s cells.
 Arguments XLbl {E} e.
 Arguments XExn {E} e.
